@@ -18,6 +18,7 @@ EXPLANATION_ADDED = "R4 also decides: local EOF -> Finish is reachable without a
 EXPLANATION_ADDED2 = ' (R7) both directions start in the constant Transferring(0).'
 EXPLANATION = EXPLANATION + " Added while testing against seeded changes: " + EXPLANATION_ADDED + EXPLANATION_ADDED2
 EXPLANATION = EXPLANATION + ' Round 10: (R8) no read of one end waits for a flush of that same end; (R9) when the stream has nothing more to relay the bridge goes idle only after poll_flush of the local side (a dirty-flag shortcut is accepted only if the flag is cleared after a completed flush and set after every write).'
+EXPLANATION = EXPLANATION + " Rounds 14-15: R5 also requires, path-wise, that the running byte total is written to the direction's state before the function can return Pending."
 ASSUMPTIONS = ["AsyncBufRead/AsyncWrite implementations of the local side honour the tokio contracts "
                "(a Pending return has registered the waker)"]
 NOT_DECIDED = "scripts of partial readiness and byte-exact relaying at run time"
